@@ -16,7 +16,7 @@ the elites are the k best of the PARENT population (direction-aware topk with k 
 best, hence best(new) is no worse than best(parents); DE/SHADE keep per slot the better of trial and parent (dual >=/<= mask, its
 complement), so every order statistic is no worse; (R12.4) operators preserve the number of rows where this is derivable from
 the code (in-place operators on a copy, index arrays of one row per individual, np.where against the input's own genomes);
-(R12.5) SEAWithAdaptiveMutation.run delegates to BaseSEA.run. Round-3/4 extensions: the election count of MultiwinnerRepeatedSelection reaches the input's size; create_population returns exactly n individuals; the elite count handed to topk stays positive; a direction kept by an engine is the problem's own at every construction site."""
+(R12.5) SEAWithAdaptiveMutation.run delegates to BaseSEA.run. Round-3/4 extensions: the election count of MultiwinnerRepeatedSelection reaches the input's size; create_population returns exactly n individuals; the elite count handed to topk stays positive; a direction kept by an engine is the problem's own at every construction site. Round 5: Population.topk selects by position, not by comparing with a threshold value (ties would enlarge the result); BaseSEA.run removes no rows from the offspring before the survivor selection; directions kept by variation / mating-selection operators are C13's question, not this property's."""
 NOTE = """Row counts that depend on numpy broadcasting inside select_parents / the multiwinner election, and CMA-ES's constant lambda, are
 recorded as assumptions. With k_elites = 0 (user choice) SEA is not elitist by definition."""
 TECHNIQUE = "population algebra on the selection code (symbolic sizes, containment facts) + shared loop-carried-dependence and polarity rules"
